@@ -986,14 +986,11 @@ def rule_templates_implement_minilanguage(cm, rep, rid, depth=3, width=2, scope=
     where = cm.comp.module.relpath
     seen_problem = set()
     def family():
-        if limit is None:
-            yield from mini_trees(depth, width)
-            yield from mini_trees(depth + 2, 1)
-            return
         # quick: everything of depth 2, long narrow chains (a commit travelling through several blocks and
-        # loops), and depth 3 with one wide level
+        # loops), and depth 3 with one wide level; thorough adds depth 3 with two wide levels (47 090 trees) and chains to depth 6
         seen = set()
-        for fam in (mini_trees(2, 2), mini_trees(5, 1), mini_trees(3, {3: 2, 2: 1, 1: 1}), mini_trees(3, {3: 1, 2: 2, 1: 1}),
+        extra = (mini_trees(3, {3: 2, 2: 2, 1: 1}), mini_trees(6, 1)) if limit is None else ()
+        for fam in extra + (mini_trees(2, 2), mini_trees(5, 1), mini_trees(3, {3: 2, 2: 1, 1: 1}), mini_trees(3, {3: 1, 2: 2, 1: 1}),
                     mini_trees(5, {5: 1, 4: 'y', 3: 'y', 2: 1, 1: 1}), mini_trees(4, {4: 'y', 3: 'y', 2: 'y', 1: 1}),
                     mini_trees(5, {5: 1, 4: 'y', 3: 1, 2: 2, 1: 1})):
             for c in fam:
